@@ -32,6 +32,8 @@ func sessErrKind(err error) string {
 		return "dbExists"
 	case errors.Is(err, storage.ErrDBNotExist):
 		return "dbNotExist"
+	case errors.Is(err, storage.ErrInvalidDBName):
+		return "invalidDbName"
 	case strings.Contains(msg, "please select a database"), errors.Is(err, storage.ErrDBNotSelected):
 		return "noDbSelected"
 	case strings.HasPrefix(msg, "unable to parse sql"):
@@ -304,6 +306,23 @@ func runSess(cfg *config) {
 			d.exec("CREATE TABLE t1 (a int, b varchar(255))")
 			d.exec(fmt.Sprintf("INSERT INTO t1 VALUES (%d, 'in %d')", i, i))
 		}
+	}, nil)
+	// scripted: names that are not one plain directory name - a path separator, the directory itself
+	// or its parent, a name no file system holds - are refused and change nothing
+	run(func(d *sdrv, r *hx.Rng) {
+		d.exec("CREATE DATABASE plain")
+		d.exec("USE plain")
+		d.exec("CREATE TABLE t1 (a int, b varchar(255))")
+		d.exec("INSERT INTO t1 VALUES (1, 'one')")
+		for _, n := range []string{"\"a/b\"", "\"..\"", "\".\"", "\"./plain\"", "\"plain/\"", "\"" + strings.Repeat("n", 256) + "\"", "\"" + strings.Repeat("é", 128) + "\""} {
+			d.exec("CREATE DATABASE " + n)
+			d.exec("SHOW DATABASES")
+			d.exec("USE " + n)
+			d.exec("INSERT INTO t1 VALUES (2, 'two')")
+			d.exec("USE plain")
+		}
+		d.exec("CREATE DATABASE \"" + strings.Repeat("m", 255) + "\"")
+		d.exec("SHOW DATABASES")
 	}, nil)
 	n := 6 * cfg.scale
 	for i := 0; i < n; i++ {
